@@ -130,7 +130,7 @@ func buildSPModel(r *Report) *spModel {
 		fc := m.A.ctxWith(fn, typedEnv(fn, spParamNames), "", 0)
 		fc.ensureConds()
 		r.Fn(p.FnName(fn))
-		return &Table{R: r, A: m.A, FC: fc, Fn: fn, Reject: fc.RejectFormula(), known: map[string]bool{}, name: p.FnName(fn)}
+		return &Table{R: r, A: m.A, FC: fc, Fn: fn, Reject: fc.NotAcceptFormula(), known: map[string]bool{}, name: p.FnName(fn)}
 	}
 	m.Resp = mk(m.RespFn)
 	m.Assert = mk(m.AssertFn)
